@@ -521,6 +521,52 @@ def analyse_hash(cl, c, fn) -> tuple[dict, bool]:
 
 # ------------------------------------------------------------------ table
 
+CACHE_COPY_OK = ("self._hash = mapping._hash",)   # copy constructor of identical content (`frozenmapping(frozenmapping)`)
+
+
+def cache_and_stores(cl, c):
+    """-> (cache field or None).  Value classes are immutable by construction: outside `__init__`/`__new__` no method may
+    store into an attribute of an instance (its own or another one's, e.g. a clone's `new._mapping = …`), except the hash
+    cache inside `__hash__`; the cache may be copied from another instance only by the copy constructor of identical
+    content.  Anything else is a refused shape."""
+    cache = None
+    for m in cl.defs[c].body:
+        if not isinstance(m, ast.FunctionDef):
+            continue
+        if m.name == "__hash__" and any(isinstance(d, ast.Name) and d.id == "cache_method" for d in m.decorator_list):
+            cache = "_hash"
+        ctor = m.name in ("__init__", "__new__")
+        is_cls = any(isinstance(d, ast.Name) and d.id in ("classmethod", "staticmethod") for d in m.decorator_list)
+        # locals bound to an *empty* fresh instance `X = Cls()`: filling it in before returning it is construction
+        empty_fresh = {n.targets[0].id for n in ast.walk(m)
+                       if isinstance(n, ast.Assign) and len(n.targets) == 1 and isinstance(n.targets[0], ast.Name)
+                       and isinstance(n.value, ast.Call) and isinstance(n.value.func, ast.Name) and n.value.func.id in (c, "cls")
+                       and not n.value.args and not n.value.keywords}
+        for n in ast.walk(m):
+            targets = n.targets if isinstance(n, ast.Assign) else [n.target] if isinstance(n, (ast.AugAssign, ast.AnnAssign)) else []
+            for t in targets:
+                if not isinstance(t, ast.Attribute):
+                    continue
+                root = t.value.id if isinstance(t.value, ast.Name) else None
+                text = ast.unparse(n)
+                if t.attr == "_hash":
+                    cache = "_hash"
+                    if m.name == "__hash__" and root == "self":
+                        continue
+                    if ctor and root == "self" and (isinstance(n.value, ast.Constant) and n.value.value is None or text in CACHE_COPY_OK):
+                        continue
+                    raise Refuse(f"{c}.{m.name}: the hash cache is written outside __hash__ (`{text[:60]}`)")
+                if root == "self" and ctor:
+                    continue
+                if root == "cls" and is_cls:
+                    continue          # class attribute (singleton instance)
+                if root in empty_fresh and t.attr != "_hash":
+                    continue
+                if root is not None and (root == "self" or t.attr.startswith("_")):
+                    raise Refuse(f"{c}.{m.name}: an instance attribute is stored outside the constructor (`{text[:60]}`)")
+    return cache
+
+
 def extract(tolerant=False):
     """-> (table, unhashable).  With `tolerant`, a class whose __eq__/__hash__ has an unrecognised shape does not
     abort the extraction: its entry carries `refused` (the message) and whatever could be read (fields, kinds, and the
@@ -577,6 +623,13 @@ def extract(tolerant=False):
                 raise
             refused.append(str(e))
             hashed, const = {}, False
+        try:
+            cache = cache_and_stores(cl, c)
+        except Refuse as e:
+            if not tolerant:
+                raise
+            refused.append(str(e))
+            cache = "_hash"
         fieldnames = [f for f, _, _ in flds]
         for f in list(info.compared) + list(hashed):
             if f not in fieldnames:
@@ -589,7 +642,7 @@ def extract(tolerant=False):
             "identity_shortcut": info.identity_shortcut, "identity_only": info.identity_only,
             "coercing": info.coercing, "inherited_eq": info.inherited, "derived": info.derived, "const_hash": const,
             "fields": [{"name": f, "cmp": info.compared.get(f), "hash": hashed.get(f), "kind": kinds[f]} for f in fieldnames],
-            "refused": "; ".join(refused) or None,
+            "refused": "; ".join(refused) or None, "cache": cache,
         })
     return out, sorted(unhashable)
 
@@ -631,6 +684,8 @@ def render(table, unhashable) -> str:
             notes.append("also compares computed " + ",".join(c["derived"]))
         if c["const_hash"]:
             notes.append("constant hash")
+        if c.get("cache"):
+            notes.append(f"hash cached in {c['cache']} (written only by __hash__ / identical-content copy constructor)")
         L.append(f"/-- {c['file']} :: {c['name']}" + (" — " + "; ".join(notes) if notes else "") + " -/")
         L.append(f"def cls_{c['name']} : ClassSpec :=")
         L.append(f'  {{ name := "{c["name"]}", hashGuard := {"true" if c["hash_guard"] else "false"}, fields := [')
